@@ -161,6 +161,16 @@ def run_conc(pid, tier, seed, plan):
             transitions += res.generated
             model_notes.append({"model": m["module"], "config": m["tag"], "distinct_states": res.distinct, "transitions": res.generated, "tlc_wall_s": round(res.wall, 1)})
             log("%s model %s/%s: %d states, %d transitions (%.1fs)" % (pid, m["module"], m["tag"], res.distinct, res.generated, res.wall))
+        # inductive invariants discharged by Apalache (unbounded in the number of steps): base and induction step
+        for ind in plan.get("inductive", []):
+            t1 = time.time()
+            for init, inv, length in ind["steps"]:
+                ok, txt = apalache(ind["module"], init, inv, length, wd)
+                if not ok:
+                    raise MachineryError("inductive invariant of %s does not hold (%s => %s):\n%s" % (ind["module"], init, inv, txt[-1500:]))
+            model_notes.append({"model": ind["module"], "config": "apalache inductive invariant: " + ", ".join("%s=>%s@%d" % s for s in ind["steps"]),
+                                "distinct_states": 0, "transitions": 0, "tlc_wall_s": round(time.time() - t1, 1)})
+            log("%s model %s: inductive invariant holds (Apalache, %.1fs)" % (pid, ind["module"], time.time() - t1))
         runners = list(plan.get("runners") or [plan["runner"]])
         exes = build_many([dict(source=r["source"], defines=r.get("defines", ()), sanitize=r.get("sanitize", True), name=r["name"]) for r in runners])
         exe = exes[0]
